@@ -331,7 +331,7 @@ def search(pid, ctx, props, impl, disagreements, tables, seed, cases=()):
                 failures.append({"line": d["line"], "extra": d["extra"], "klass": d["klass"], "what": r, "impl": d["impl"], "oracle": d["oracle"]})
     if failures:
         return failures, n
-    if disagreements and all(d["line"].split()[0] in ("msg", "parse", "helpers", "names", "setattr", "crc", "brepr", "beval", "mrepr", "lay") for d in disagreements[:40]):
+    if disagreements and all(d["line"].split()[0] in ("msg", "parse", "helpers", "names", "setattr", "crc", "brepr", "beval", "mrepr", "lay", "conc") for d in disagreements[:40]):
         # history dependence: the same op in a fresh interpreter must give the same answer
         import subprocess
         for d in disagreements[:40]:
